@@ -129,8 +129,8 @@ def main():
                  "Exit 0 holds / 1 VIOLATION / 2 ANALYSIS-ERROR (fail closed). "
                  "Known findings: /verif/known_findings.json. Self-test "
                  "variants: selftest/run.py (293); seeded breaking changes: "
-                 "seeded/ (76, all reported); behaviour-preserving refactoring "
-                 "patches: benign/ (30, all silent); tools/corpus.py re-checks "
+                 "seeded/ (95, all reported); behaviour-preserving refactoring "
+                 "patches: benign/ (40, all silent); tools/corpus.py re-checks "
                  "both.",
     }
     with open(os.path.join(VERIF, "MANIFEST.json"), "w") as fh:
